@@ -306,6 +306,17 @@ type rbCond struct {
 
 // method analyses fn from the octahedron `in` over the fields and returns the
 // exit octahedron over fields + ghosts.
+// intParams: the integer parameters of a method (after the receiver), by name.
+func rbIntParams(fn *ssa.Function) []string {
+	var out []string
+	for i, p := range fn.Params {
+		if i > 0 && isIntType(p.Type()) {
+			out = append(out, p.Name())
+		}
+	}
+	return out
+}
+
 func (r *rbRun) method(fn *ssa.Function, in *rbOct) *rbOct {
 	key := fn.Name() + "|" + in.key()
 	if o, ok := r.cache[key]; ok {
@@ -331,6 +342,8 @@ func (r *rbRun) method(fn *ssa.Function, in *rbOct) *rbOct {
 		f.loops[l.Header] = l
 	}
 	f.exvars = append(append([]string{}, fv...), mapStrings(fv, ghost)...)
+	// integer parameters are immutable: the exit relation may mention them
+	f.exvars = append(f.exvars, rbIntParams(fn)...)
 	f.exit = &rbOct{vars: f.exvars, bot: true}
 	st := in.poly()
 	for _, v := range fv {
@@ -893,13 +906,28 @@ func (f *rbFn) call(st *rbPoly, in *ssa.Call) {
 	}
 	if r.t.isMeth[cal] && len(cc.Args) > 0 && cc.Args[0] == ssa.Value(f.recv) {
 		fv := r.fieldVars()
-		entry := octOf(st, fv)
+		// the callee's integer parameters, bound to the arguments
+		r.callNo++
+		pnames := rbIntParams(cal)
+		parg := func(v string) string { return fmt.Sprintf("$arg%d.%s", r.callNo, v) }
+		stIn := st.clone()
+		evars := append([]string{}, fv...)
+		for i, p := range cal.Params {
+			if i == 0 || !isIntType(p.Type()) || i >= len(cc.Args) {
+				continue
+			}
+			if l, ok := f.lin(cc.Args[i]); ok {
+				stIn.eq(linVar(p.Name()).plus(l, -1))
+				st.eq(linVar(parg(p.Name())).plus(l, -1))
+			}
+			evars = append(evars, p.Name())
+		}
+		entry := octOf(stIn, evars)
 		sum := r.method(cal, entry)
 		if sum.bot {
 			st.bot = true
 			return
 		}
-		r.callNo++
 		pre := func(v string) string { return fmt.Sprintf("$pre%d%s", r.callNo, v) }
 		for _, v := range fv {
 			st.eq(linVar(pre(v)).plus(linVar(v), -1))
@@ -912,6 +940,11 @@ func (f *rbFn) call(st *rbPoly, in *ssa.Call) {
 			st.add(rbCons{eq: c.eq, l: c.l.rename(func(v string) string {
 				if strings.HasPrefix(v, "0F.") {
 					return pre(v[1:])
+				}
+				for _, pn := range pnames {
+					if v == pn {
+						return parg(pn)
+					}
 				}
 				return v
 			})})
